@@ -105,3 +105,17 @@ package core
 //@   ensures [infinite] r1 == nil ==> r0 != nil && r0.ServiceID == "gc_worker" && r0.ExpiredAt == MaxInt64 && r0.SafePoint == initialValue
 //@   ensures [saved] r1 == nil ==> kvhas[gocall("path.Join#0/4", "gc", "safe_point", "service", "gc_worker")]
 //@   modifies ghost kvhas, ghost kvval
+
+// ---- C14: the store map ----
+// GetStores hands out served stores only. That it hands out EVERY served store (Go's map iteration visits every
+// entry) is not modelled by the engine and is an assumption of every clause stated over its result.
+//@ func (*BasicCluster).GetStores
+//@   assumed
+//@   ensures [sound] forall i :: 0 <= i && i < len(result) ==> result[i] != nil && allocated(result[i]) && result[i].meta != nil && in(bc.Stores.stores, result[i].meta.Id) && bc.Stores.stores[result[i].meta.Id] == result[i]
+//@   modifies nothing
+
+// The number of region peers a store holds (leader + follower + learner index sizes); trusted here, see C07.
+//@ func (*BasicCluster).GetStoreRegionCount
+//@   assumed
+//@   option event GetStoreRegionCount
+//@   modifies nothing
